@@ -303,12 +303,13 @@ def invariant_period_bookkeeping(K, n, base):
 @contract("C19", targets=[PM + "Dataslate.from_databox", PM + "Dataslate.to_databox", PM + "_slate_value_variant_iterator", PD + "Databox.iter_variants",
                           PV + "Variant.from_databox_variant", "irispie.series.main:Series.from_start_and_array",
                           "irispie.series.main:Series.iter_data_variants_from_until", "irispie.series.main:Series.iter_own_data_variants_from_until"],
-          instances=[()], opts={"max_paths": 8000})
-def databox_dataslate_roundtrip(K):
+          instances=[(1, None), (2, None), (1, "empty"), (1, "other"), (2, "same")], opts={"max_paths": 8000})
+def databox_dataslate_roundtrip(K, nv, target):
     """Converting a databox to a dataslate on a span and back returns exactly the input values on that span and NaN
-    elsewhere (no fallbacks/overwrites declared); names not selected do not appear."""
+    elsewhere (no fallbacks/overwrites declared) - every variant its own values; names not selected do not appear.  A
+    target databox given by the caller - empty, holding other names, or the source itself - is the object written to."""
     q = D.QuarterlyPeriod
-    x, xs, xd = mk_series(K, "x", q, 1)
+    x, xs, xd = mk_series(K, "x", q, nv)
     y, ys, yd = mk_series(K, "y", q, 1)
     db = K.call(Databox)
     K.setitem(db, "x", x)
@@ -318,24 +319,34 @@ def databox_dataslate_roundtrip(K):
     K.assume(a <= b)
     span = K.call(D.Span, K.obj(q, serial=a), K.obj(q, serial=b))
     ds = K.stubbed(DI.Invariant.nonbase_columns.fget, lambda self: (), "nonbase_columns unused on this path (clip_data_to_base_span=False)",
-                   lambda: K.call(Dataslate.from_databox, db, ("x", "missing"), span))
-    out = K.method(ds, "to_databox")
-    K.ensure("selected names only", set(K.method(out, "get_names")) == {"x", "missing"})
+                   lambda: K.call(Dataslate.from_databox, db, ("x", "missing"), span, num_variants=nv))
+    if target is None:
+        out = K.method(ds, "to_databox")
+        expected_names = {"x", "missing"}
+    else:
+        tgt = db if target == "same" else K.call(Databox)
+        if target == "other":
+            K.setitem(tgt, "kept", y)
+        out = K.method(ds, "to_databox", target_db=tgt)
+        K.ensure("the databox handed over is the one written to and returned", out is tgt)
+        out = tgt
+        expected_names = {"x", "missing"} | ({"kept"} if target == "other" else set()) | ({"y"} if target == "same" else set())
+    K.ensure("selected names only", set(K.method(out, "get_names")) == expected_names)
     t = K.int("t", 7960, 8120)
+    c = K.int("c", 0, nv - 1)
     K.instantiate(t)
     rs, rd = state(K, K.index(out, "x"))
-    K.ensure("values on the span, NaN elsewhere", K.cell_eq(V(K, rs, rd, t, 0), K.cell_ite(K.And(a <= t, t <= b), lambda: V(K, xs, xd, t, 0), lambda: K.nan_cell())))
+    K.ensure("values on the span, NaN elsewhere", K.cell_eq(V(K, rs, rd, t, c), K.cell_ite(K.And(a <= t, t <= b), lambda: V(K, xs, xd, t, c), lambda: K.nan_cell())))
+    K.ensure("number of variants", K.shape(rd)[1] == nv)
     ms, md = state(K, K.index(out, "missing"))
     K.ensure("a name without data comes back as the empty series", ms is None)
-    nxs, nxd = state(K, x)
-    K.ensure("input series untouched", K.cell_eq(V(K, nxs, nxd, t, 0), V(K, xs, xd, t, 0)))
+    if target in ("other", "same"):
+        other = K.index(out, "kept" if target == "other" else "y")
+        K.ensure("series the dataslate does not hold stay in the target", other is y)
+    if target != "same":
+        nxs, nxd = state(K, x)
+        K.ensure("input series untouched", K.cell_eq(V(K, nxs, nxd, t, c), V(K, xs, xd, t, c)))
 
-
-@contract("C19", targets=[PD + "Databox.remove"], instances=[(("a", "b"), ("a",))], canary=True, cross=2)
-def canary_remove_removes_everything(K, present, sel):
-    db, vals = box(K, present)
-    K.method(db, "remove", list(sel))
-    K.ensure("WRONG: remove empties the databox", len(view(K, db)) == 0)
 
 
 # ------------------------------------------------------------------------------ CSV export: one block of columns per frequency
@@ -483,3 +494,29 @@ def every_series_gets_a_block_in_the_csv_sheet(K):
     qspan = [K.attr(p, "serial") for p in K.items(K.index(fs, F.QUARTERLY))]
     K.ensure("the quarterly block spans all quarterly series", qspan == [D.qq(2020, 1).serial + i for i in range(4)])
     K.ensure("height of the sheet: the longest block", K.call(EXP._get_total_num_data_rows, fs) == 4)
+
+
+@contract("C19", targets=[PE + "_get_data_array_for_names", "irispie.series.main:Series.get_data", "irispie.series.main:_get_date_positions",
+                          "irispie.series.main:Series._resolve_dates_and_positions", "irispie.series.main:Series._create_expanded_data"],
+          instances=[(2,), (3,)], opts={"max_paths": 6000})
+def export_rows_follow_the_requested_periods(K, k):
+    """The data rows of a CSV block are the requested periods IN THE ORDER REQUESTED - ascending, descending or with
+    gaps, inside or outside the stored range of each series (missing there) - and the series are not modified."""
+    cls = D.QuarterlyPeriod
+    x, xs, xd = mk_series(K, "x", cls, 1)
+    y, ys, yd = mk_series(K, "y", cls, 2)
+    db = K.call(Databox)
+    K.setitem(db, "x", x)
+    K.setitem(db, "y", y)
+    ds = [K.int(f"d{i}", 7990, 8060) for i in range(k)]
+    periods = tuple(K.obj(cls, serial=d) for d in ds)
+    arr = K.call(EXP._get_data_array_for_names, db, ("x", "y"), periods)
+    K.ensure("one row per period, one column per variant of every series", K.shape(arr) == (k, 3))
+    for i in range(k):
+        K.ensure(f"row {i}: x", K.cell_eq(K.cell(arr, i, 0), V(K, xs, xd, ds[i], 0)))
+        K.ensure(f"row {i}: y, first variant", K.cell_eq(K.cell(arr, i, 1), V(K, ys, yd, ds[i], 0)))
+        K.ensure(f"row {i}: y, second variant", K.cell_eq(K.cell(arr, i, 2), V(K, ys, yd, ds[i], 1)))
+    t = K.int("t", 7960, 8120)
+    K.instantiate(t)
+    nxs, nxd = state(K, x)
+    K.ensure("series untouched", K.cell_eq(V(K, nxs, nxd, t, 0), V(K, xs, xd, t, 0)))
